@@ -775,7 +775,7 @@ theorem view_apply_prefix (s : State) (op : Op) (n : Name) (hs : Inv s) (hf : Fr
       | true =>
         simp only [step, if_true] at h
         cases h
-        exact view_applyCbs_prefix s cbs n hs hf
+        exact view_applyCbs_prefix s cbs n hs (hf rfl)
     | block dt cbs =>
       simp only [step] at h
       cases h
@@ -808,6 +808,213 @@ theorem history_is_newest_prefix (s : State) (ops : List Op) (n : Name) (hs : In
       (List.prefix_append_right_inj _).2 h2
     have := h1.trans h3
     simpa [run, log, List.append_assoc] using this
+
+/-! `FreshRun` follows from a condition on the operation list alone: per feed, the batch counters
+reported by the service module increase strictly and start above the keys stored initially. -/
+
+def endOf (k : Nat) (bs : List Nat) : Nat := bs.foldl (fun _ b => b + 1) k
+
+theorem incrFrom_append (k : Nat) (a b : List Nat) :
+    IncrFrom k (a ++ b) ↔ IncrFrom k a ∧ IncrFrom (endOf k a) b := by
+  induction a generalizing k with
+  | nil => simp [IncrFrom, endOf]
+  | cons x t ih =>
+    simp only [List.cons_append, IncrFrom, endOf, List.foldl_cons]
+    rw [ih (x + 1)]
+    simp only [endOf, and_assoc]
+
+theorem mem_insertKey {l : List (Nat × Value)} {k : Nat} {v : Value} {e : Nat × Value}
+    (h : e ∈ insertKey k v l) : e = (k, v) ∨ e ∈ l := by
+  induction l with
+  | nil => simp [insertKey] at h; exact Or.inl h
+  | cons hd t ih =>
+    obtain ⟨k', v'⟩ := hd
+    simp only [insertKey] at h
+    split at h
+    · simp only [List.mem_cons] at h ⊢
+      rcases h with h | h | h
+      · exact Or.inl h
+      · exact Or.inr (Or.inl h)
+      · exact Or.inr (Or.inr h)
+    · split at h
+      · simp only [List.mem_cons] at h ⊢
+        rcases h with h | h
+        · exact Or.inl h
+        · exact Or.inr (Or.inr h)
+      · simp only [List.mem_cons] at h ⊢
+        rcases h with h | h
+        · exact Or.inr (Or.inl h)
+        · rcases ih h with h | h
+          · exact Or.inl h
+          · exact Or.inr (Or.inr h)
+
+theorem freshKey_setFeedValue {vals : List (Nat × Value)} {b hist k : Nat} {v : Value}
+    (h : FreshKey vals k) (hk : k ≤ b) : FreshKey (setFeedValue vals b hist v) (b + 1) := by
+  intro e he
+  rcases mem_insertKey he with rfl | he
+  · simp
+  · have := h e (List.mem_of_mem_drop he); omega
+
+theorem freshKey_trimTo {vals : List (Nat × Value)} {h k : Nat} (hf : FreshKey vals k) : FreshKey (trimTo vals h) k := by
+  intro e he
+  unfold trimTo at he
+  split at he
+  · exact hf e (List.mem_of_mem_drop he)
+  · exact hf e he
+
+theorem freshKey_mono {vals : List (Nat × Value)} {k k' : Nat} (h : FreshKey vals k) (hk : k ≤ k') : FreshKey vals k' :=
+  fun e he => Nat.lt_of_lt_of_le (h e he) hk
+
+/-- callbacks of one operation -/
+theorem freshCbs_of_incr (s : State) (cbs : List Cb) (K : Name → Nat)
+    (h : ∀ n, FreshKey (valuesOf s n) (K n) ∧ IncrFrom (K n) (batchesCbs n cbs)) :
+    FreshCbs s cbs ∧ ∀ n, FreshKey (valuesOf (applyCbs s cbs) n) (endOf (K n) (batchesCbs n cbs)) := by
+  induction cbs generalizing s K with
+  | nil => exact ⟨trivial, fun n => by simpa [applyCbs, batchesCbs, endOf] using (h n).1⟩
+  | cons cb r ih =>
+    cases cb with
+    | state f to =>
+      have hv : ∀ n, valuesOf (applyCb s (.state f to)) n = valuesOf s n := by
+        intro n
+        have : (cbState s f to).values = s.values := by
+          unfold cbState
+          split; · rfl
+          split; · rfl
+          cases to <;> rfl
+        simp [applyCb, valuesOf, this]
+      have := ih (applyCb s (.state f to)) K (fun n => by rw [hv n]; simpa [batchesCbs] using h n)
+      exact ⟨⟨trivial, this.1⟩, fun n => by simpa [applyCbs, batchesCbs] using this.2 n⟩
+    | done f b thr outs =>
+      have hf := h f
+      simp only [batchesCbs, if_true, IncrFrom] at hf
+      have hfresh : FreshKey (valuesOf s f) b := freshKey_mono hf.1 hf.2.1
+      have hstep : ∀ n, FreshKey (valuesOf (cbDone s f b thr outs) n) (if n = f then b + 1 else K n) := by
+        intro n
+        rcases cbDone_spec s f b thr outs with ⟨_, he⟩ | ⟨fd, d, _, _, he⟩
+        · rw [he]
+          by_cases hn : n = f
+          · subst hn; simp only [if_true]; exact freshKey_mono hf.1 (by omega)
+          · simp only [hn, if_false]; exact (h n).1
+        · rw [he]
+          by_cases hn : n = f
+          · subst hn
+            simp only [if_true]
+            rw [valuesOf_set_self]
+            exact freshKey_setFeedValue hf.1 hf.2.1
+          · simp only [hn, if_false]
+            rw [valuesOf_set_other _ _ _ _ (Ne.symm hn)]
+            exact (h n).1
+      have := ih (applyCb s (.done f b thr outs)) (fun n => if n = f then b + 1 else K n) (fun n => by
+        refine ⟨hstep n, ?_⟩
+        by_cases hn : n = f
+        · subst hn; simp only [if_true]; exact hf.2.2
+        · have hn' : ¬ f = n := fun e => hn e.symm
+          have := (h n).2
+          simp only [batchesCbs, hn', if_false] at this
+          simpa [hn] using this)
+      refine ⟨⟨hfresh, this.1⟩, fun n => ?_⟩
+      have h2 := this.2 n
+      by_cases hn : n = f
+      · subst hn
+        simpa [applyCbs, batchesCbs, endOf] using h2
+      · have hn' : ¬ f = n := fun e => hn e.symm
+        simpa [applyCbs, batchesCbs, endOf, hn, hn'] using h2
+
+theorem valuesOf_of_values {s s' : State} (h : s'.values = s.values) (n : Name) : valuesOf s' n = valuesOf s n := by
+  simp [valuesOf, h]
+
+/-- one operation -/
+theorem freshOp_of_incr (s : State) (op : Op) (K : Name → Nat)
+    (h : ∀ n, FreshKey (valuesOf s n) (K n) ∧ IncrFrom (K n) (batchesOp n op)) :
+    FreshOp s op ∧ ∀ n, FreshKey (valuesOf (apply s op) n) (endOf (K n) (batchesOp n op)) := by
+  have hsame : (∀ n, batchesOp n op = []) → apply s op = s ∨ (apply s op).values = s.values →
+      ∀ n, FreshKey (valuesOf (apply s op) n) (endOf (K n) (batchesOp n op)) := by
+    intro hb hv n
+    rw [hb n]
+    simp only [endOf, List.foldl_nil]
+    rcases hv with hv | hv
+    · rw [hv]; exact (h n).1
+    · rw [valuesOf_of_values hv]; exact (h n).1
+  unfold apply at hsame ⊢
+  cases hstep : step s op with
+  | error e =>
+    simp only [hstep] at hsame ⊢
+    cases op with
+    | respond acc cbs =>
+      cases acc with
+      | true => simp [step] at hstep
+      | false => exact ⟨by simp [FreshOp], hsame (fun n => rfl) (Or.inl trivial)⟩
+    | block dt cbs => simp [step] at hstep
+    | create m => exact ⟨trivial, hsame (fun n => rfl) (Or.inl trivial)⟩
+    | start a b => exact ⟨trivial, hsame (fun n => rfl) (Or.inl trivial)⟩
+    | pause a b => exact ⟨trivial, hsame (fun n => rfl) (Or.inl trivial)⟩
+    | edit m => exact ⟨trivial, hsame (fun n => rfl) (Or.inl trivial)⟩
+    | bank => exact ⟨trivial, hsame (fun n => rfl) (Or.inl trivial)⟩
+  | ok s' =>
+    simp only [hstep] at hsame ⊢
+    cases op with
+    | create m =>
+      obtain ⟨_, _, _, rfl⟩ := stepCreate_ok (by simpa [step] using hstep)
+      exact ⟨trivial, hsame (fun n => rfl) (Or.inr rfl)⟩
+    | start a b =>
+      obtain ⟨_, _, _, _, _, _, rfl⟩ := stepStart_ok (by simpa [step] using hstep)
+      exact ⟨trivial, hsame (fun n => rfl) (Or.inr rfl)⟩
+    | pause a b =>
+      obtain ⟨_, _, _, _, _, _, rfl⟩ := stepPause_ok (by simpa [step] using hstep)
+      exact ⟨trivial, hsame (fun n => rfl) (Or.inr rfl)⟩
+    | bank =>
+      simp only [step] at hstep; cases hstep
+      exact ⟨trivial, hsame (fun n => rfl) (Or.inl rfl)⟩
+    | edit m =>
+      obtain ⟨f, c, c', _, _, _, _, _, rfl⟩ := stepEdit_ok (by simpa [step] using hstep)
+      refine ⟨trivial, fun n => ?_⟩
+      simp only [batchesOp, endOf, List.foldl_nil]
+      by_cases hh : 0 < m.hist
+      · simp only [hh, if_true, valuesOf]
+        by_cases hn : m.name = n
+        · subst hn; rw [getD_set_self]; exact freshKey_trimTo (h m.name).1
+        · rw [getD_set_other _ _ _ _ hn]; exact (h n).1
+      · simp only [hh, if_false]; exact (h n).1
+    | respond acc cbs =>
+      cases acc with
+      | false => simp [step] at hstep
+      | true =>
+        simp only [step, if_true] at hstep
+        cases hstep
+        have := freshCbs_of_incr s cbs K (fun n => by simpa [batchesOp] using h n)
+        exact ⟨fun _ => this.1, fun n => by simpa [batchesOp] using this.2 n⟩
+    | block dt cbs =>
+      simp only [step] at hstep
+      cases hstep
+      have := freshCbs_of_incr s cbs K (fun n => by simpa [batchesOp] using h n)
+      refine ⟨this.1, fun n => ?_⟩
+      have e : valuesOf { applyCbs s cbs with now := (applyCbs s cbs).now + 1000000000 * dt } n
+          = valuesOf (applyCbs s cbs) n := valuesOf_of_values rfl n
+      rw [e]
+      simpa [batchesOp] using this.2 n
+
+/-- a history in which, per feed, the service module reports strictly increasing batch counters
+above the keys stored initially has growing counters in the sense of `FreshRun` -/
+theorem freshRun_of_increasing (s : State) (ops : List Op) (K : Name → Nat)
+    (h : ∀ n, FreshKey (valuesOf s n) (K n) ∧ IncrFrom (K n) (batches n ops)) : FreshRun s ops := by
+  induction ops generalizing s K with
+  | nil => trivial
+  | cons op r ih =>
+    have h1 := freshOp_of_incr s op K (fun n => ⟨(h n).1, ((incrFrom_append _ _ _).1 (h n).2).1⟩)
+    refine ⟨h1.1, ih (apply s op) (fun n => endOf (K n) (batchesOp n op)) (fun n => ⟨h1.2 n, ?_⟩)⟩
+    exact ((incrFrom_append _ _ _).1 (h n).2).2
+
+/-- **C17(b), stated on the operation list alone**: from the empty oracle state, every history in
+which the service module's batch counters increase per feed keeps, for every feed, a prefix of all
+values ever produced (newest first), at most `latestHistory` of them. -/
+theorem history_is_newest_reachable (t : Nat) (ops : List Op) (n : Name)
+    (hincr : ∀ m, IncrFrom 0 (batches m ops)) :
+    viewOf (run { now := t } ops) n <+: log { now := t } n ops ∧ Bounded (run { now := t } ops) := by
+  have hf : FreshRun { now := t } ops :=
+    freshRun_of_increasing _ ops (fun _ => 0) (fun m => ⟨by intro e he; simp [valuesOf, AMap.getD] at he, hincr m⟩)
+  have := history_is_newest_prefix { now := t } ops n (inv_init t) hf
+  refine ⟨?_, history_bounded_reachable t ops⟩
+  simpa [viewOf, valuesOf, AMap.getD, view] using this
 
 /-- demo history used by the audit's non-vacuity evaluation: two feeds, a batch on each
 (one all-negative `max` batch, one `avg` batch), an automatic pause, a shrinking edit -/
